@@ -152,7 +152,8 @@ pub fn leap_grid() -> Vec<String> {
     let iv = (4u32 << 25) | (1 << 23); // 8.0 s  -> threshold 64 s
     let mut v = Vec::new();
     for leap in 0..65536i64 {
-        for &age in &[1_000_000_000i64, 64_000_000_000, 64_000_000_001, 100_000_000_000, -1] {
+        let ages: &[i64] = if leap < 16 { &[1_000_000_000i64, 64_000_000_000, 64_000_000_001, 100_000_000_000, -1] } else { &[1_000_000_000i64, 64_000_000_001] };
+        for &age in ages {
             v.push(format!("extract {} {} {} {} {} {} {}", leap, now - age, now, 0x0200_0000u32 | 0x000a_0000, 0x0400_0000u32 | 0x00b0_0000, 0x0600_0000u32 | 0x00c0_0000, iv));
         }
     }
